@@ -257,6 +257,11 @@ def _families():
             for flag_where in ('cli-flag', 'main-flag', 'gcp-flag'):
                 for lst in ('unrelated', 'empty'):
                     yield ('flag-beside-list', (b, how, flag_where, lst))
+    for feats in ('side-by-side', 'diff-so-fancy', 'navigate', 'line-numbers', 'hyperlinks', 'diff-highlight', 'raw', 'side-by-side navigate',
+                  'diff-so-fancy line-numbers', 'nonexistent side-by-side'):
+        for how in ('arg', 'env', 'env+'):
+            for flag in (None, 'navigate', 'side-by-side'):
+                yield ('no-gitconfig-equals-empty', (feats, how, flag))
     for combo in itertools.combinations(sorted(BUILTIN_SETS) + ['line-numbers', 'side-by-side', 'hyperlinks'], 2):
         yield ('determinism-flags', (combo, 'main'))
     for combo in itertools.combinations(sorted(BUILTIN_SETS) + ['line-numbers', 'side-by-side'], 3):
@@ -486,6 +491,22 @@ def build(family, params, defaults):
         p.expected = bval
         p.why = 'the built-in feature %s is enabled by its flag (%s); the feature list named by %s does not set the option' % (b, flag_where, how)
         p.nsources = 2
+    elif family == 'no-gitconfig-equals-empty':
+        feats, how, flag = params
+        p = Placement('line-numbers')
+        p.no_gitconfig = True
+        p.compare_with_empty = True
+        if how == 'arg':
+            p.features_arg = feats
+        elif how == 'env':
+            p.env_features = feats
+        else:
+            p.env_features = '+' + feats
+        if flag:
+            p.cli_flags.append(flag)
+        p.expected = None
+        p.why = '--no-gitconfig ignores every gitconfig source: the result is that of an empty configuration'
+        p.nsources = 2
     elif family == 'determinism-flags':
         combo, where = params
         p = Placement('file-style')
@@ -581,11 +602,33 @@ def run_placement(p, reps, label):
         if first_full is None:
             first_full = full
             first = val
+            first_raw = r.out
+        elif r.out != first_raw and full == first_full:
+            return [violated('c13:nondeterministic-text:' + p.family, 'two runs with identical sources printed different --show-config text (the same values spelt differently)',
+                             first_raw.decode('utf-8', 'replace')[:400], r.out.decode('utf-8', 'replace')[:400], run=r, sets=sets, counters=counters, extra=p.describe())]
         elif full != first_full:
             diff = sorted(k2 for k2 in set(full) | set(first_full) if full.get(k2) != first_full.get(k2))
             return [violated('c13:nondeterministic:' + p.family, 'two runs with identical sources resolved differently (options %s)' % diff[:6],
                              {k2: first_full.get(k2) for k2 in diff[:6]}, {k2: full.get(k2) for k2 in diff[:6]}, run=r, sets=sets,
                              counters=counters, extra=p.describe())]
+    if getattr(p, 'compare_with_empty', False):
+        # --no-gitconfig must give what an empty configuration gives
+        empty = runner.write_file('c13_empty.gitconfig', '')
+        args2 = []
+        for a in args:
+            if a == '--no-gitconfig':
+                args2 += ['--config', empty]
+            else:
+                args2.append(a)
+        r2 = runner.run_delta(args2, b'', env=env, stdin_is_none=True, home=getattr(p, 'home', None))
+        counters['show_config_runs'] += 1
+        if crashmod.classify(r2) is None and r2.rc == 0:
+            full2 = {k2: norm_value(k2, v) for k2, v in parse_show_config(r2.out).items()}
+            if full2 != first_full:
+                diff = sorted(k2 for k2 in set(full2) | set(first_full) if full2.get(k2) != first_full.get(k2))
+                return [violated('c13:no-gitconfig-differs-from-empty-config', 'with --no-gitconfig the options %s resolve differently than with an empty configuration file '
+                                 '(same command line, same environment)' % diff[:6], {k2: full2.get(k2) for k2 in diff[:6]}, {k2: first_full.get(k2) for k2 in diff[:6]},
+                                 run=r, sets=sets, counters=counters, extra=p.describe())]
     if p.expected is not None:
         exp = norm_value(p.opt, p.expected)
         if first != exp:
